@@ -284,6 +284,62 @@ def activation(ctx, tag, A, ev, rl, fkey):
                 bound = any(c is T.cmp('lt', ls.lh[cnt[0]], T.app('len', x)) or c is T.cmp('lt', ls.lh[cnt[0]], x) for c in conjuncts(nx[1]) for x in T.subterms(c))
                 ok_rep = bool(ck) and a0 is not None and rl.init[ck[0]] is seq_len(a0) and bound
                 found += '; counter starts at %s' % (show(rl.init[ck[0]]) if ck else '?')
+    # entries leave the table only after they were counted: the per-tick flag table is set exactly under the finished guard, the
+    # replacement and the removal list are both conditioned on the entry's flag, and flagged entries that are not replaced are
+    # removed from the highest index down (removing in ascending order shifts the later ones: an unfinished chain would leave)
+    flagk, guard = None, None
+    for ls in inner:
+        for k in ls.lh:
+            nx, fk = ls.next.get(k), [k2 for k2 in ls.lh if keyrepr(k2) == keyrepr(fkey)]
+            if isinstance(nx, T.Tm) and nx[0] == 'ite' and T.is_app(nx[2], 'upd') and nx[2][2][0] is ls.lh[k] and nx[2][2][1] is ls.var and nx[2][2][2] is T.TRUE and nx[3] is ls.lh[k] \
+                    and fk and isinstance(ls.next.get(fk[0]), T.Tm) and ls.next[fk[0]] is T.ite(nx[1], T.add(ls.lh[fk[0]], T.ONE), ls.lh[fk[0]]):
+                flagk, guard = (ls, k), nx[1]
+
+    def leaf_paths(t, conds=()):
+        if isinstance(t, T.Tm) and t[0] == 'ite':
+            yield from leaf_paths(t[2], conds + (t[1],))
+            yield from leaf_paths(t[3], conds + (T.lnot(t[1]),))
+        else:
+            yield conds, t
+    ok_leave, found_leave = False, 'per-tick flag table (set together with the completion count) not identified'
+    if flagk is not None:
+        fl_, fk_ = flagk
+        TR = fl_.lx.get(fk_)
+        found_leave = 'no removal of flagged entries found'
+        for ls in inner:
+            ak = [k for k in ls.lh if keyrepr(k) == keyrepr(akey)]
+            if not ak or not isinstance(ls.next.get(ak[0]), T.Tm):
+                continue
+            flag_i = index_term(TR, ls.var) if TR is not None else None
+            # every write of this loop to the table or to a list of indices happens on a path on which the entry's flag is set
+            writes_ok = True
+            for k in ls.lh:
+                nx = ls.next.get(k)
+                if not isinstance(nx, T.Tm) or nx is ls.lh[k] or not (k is ak[0] or any(T.is_app(l_, 'push') for _, l_ in leaf_paths(nx))):
+                    continue
+                for conds, leaf in leaf_paths(nx):
+                    if leaf is ls.lh[k]:
+                        continue
+                    flagged = any(c_ is flag_i for c in conds for c_ in conjuncts(c))
+                    if not flagged or (T.is_app(leaf, 'push') and leaf[2][1] is not ls.var):
+                        writes_ok = False
+            if ls.next[ak[0]][0] == 'ite' and T.is_app(ls.next[ak[0]][2], 'upd'):
+                rep_ok = writes_ok
+                rml = [k for k in ls.lh if any(T.is_app(l_, 'push') for _, l_ in leaf_paths(ls.next[k])) if isinstance(ls.next.get(k), T.Tm)]
+                # the removal loop: over the (sorted) list built here, from the last entry to the first
+                for l2 in inner:
+                    a2 = [k for k in l2.lh if keyrepr(k) == keyrepr(akey)]
+                    if not a2 or not T.is_app(l2.next.get(a2[0]), 'removed'):
+                        continue
+                    rm = l2.next[a2[0]]
+                    lists = [T.app('sorted', ls.lx[k]) for k in rml if isinstance(ls.lx.get(k), T.Tm)] + [ls.lx[k] for k in rml if isinstance(ls.lx.get(k), T.Tm)]
+                    desc = any(rm[2][0] is l2.lh[a2[0]] and l2.n is T.app('len', L) and rm[2][1] is index_term(L, T.sub(T.sub(T.app('len', L), T.ONE), l2.var)) for L in lists)
+                    ok_leave = rep_ok and desc and len(rml) == 1
+                    found_leave = 'writes conditioned on the entry flag: %s; removal %s' % (rep_ok, show(rm)[:160])
+    ctx.check('C10.activation.leave.' + tag, A, 'active-table-leave', ok_leave,
+              expected='entries are replaced or listed for removal only when flagged this tick (flag set together with the completion count), and listed entries are removed from the highest index down',
+              found=found_leave, sp=rl.sp,
+              why='a watched chain that leaves the table before it was counted is never counted: the reporter (hence run_progress) never returns')
     ctx.check('C10.activation.' + tag, A, 'active-table', ok_init and ok_rep,
               expected='watched chains start as 0..m-1 with the activation counter at m; a finished entry is replaced by (counter, ..) and the counter stepped by one under one and the same condition (counter < number of chains), the stored index being the counter BEFORE the step',
               found=('initial table %s; ' % (show(a0)[:80] if a0 is not None else '?')) + found, sp=rl.sp,
